@@ -45,7 +45,7 @@ P = 'C09'
 BUDGETS = {'C09': (75, 1200, 40)}
 LEVELS = {'C09': 'exploration'}
 ALLOWED = (ServerError, ProtocolError, SSLVerificationError, NetworkError)
-PROBES = {'C09': ['layer.http', 'layer.web', 'layer.robots', 'layer.ftp', 'layer.crawl', 'robots_redirected_to_other_origin', 'crawl_with_warc', 'crawl_post_data', 'redirect_to_directory_of_same_name', 'crawl_ftp', 'ftp_symlinks', 'continue_with_partial_files', 'long_line', 'raw_random', 'truncated', 'odd_location',
+PROBES = {'C09': ['layer.http', 'layer.web', 'layer.robots', 'layer.ftp', 'layer.crawl', 'robots_redirected_to_other_origin', 'crawl_with_warc', 'crawl_url_rewriting_option', 'crawl_post_data', 'redirect_to_directory_of_same_name', 'crawl_ftp', 'ftp_symlinks', 'continue_with_partial_files', 'long_line', 'raw_random', 'truncated', 'odd_location',
                   'odd_cookie', 'cookie_flood', 'bad_compression', 'ftp_reply_mutated', 'ftp_listing_mutated', 'hostile_html', 'hostile_css', 'hostile_js',
                   'hostile_sitemap', 'hostile_robots', 'real_file_writer', 'per_url_error_seen', 'healthy_fetched_after_hostile', 'reset', 'stall']}
 INFO = {'C09': {
@@ -550,6 +550,13 @@ def layer_crawl(tape, r, tier):
         extra = ['--timeout', '20']
         if tape.chance(1, 2, 'sitemaps'):
             extra.append('--sitemaps')
+        # options that rewrite every extracted link (the rewriter runs inside link extraction)
+        if tape.chance(1, 4, 'crawl.escaped_fragment'):
+            extra.append('--escaped-fragment')
+            r.probes['crawl_url_rewriting_option'] += 1
+        if tape.chance(1, 6, 'crawl.strip_session_id'):
+            extra.append('--strip-session-id')
+            r.probes['crawl_url_rewriting_option'] += 1
         dbpath = os.path.join(sandbox, 'db.sqlite')
         if ftp_symlinks:
             extra = extra + ['--retr-symlinks=off']
